@@ -1386,12 +1386,19 @@ func runC12(rc *runCtx) error {
 				"entries": r.Entries, "fresh": r.Fresh, "dup": r.Dup, "features": r.Feats})
 		}
 	}
+	rpcTerms, err := c12RunRpc(rc, exe, hist)
+	if err != nil {
+		return err
+	}
+	for i, t := range rpcTerms {
+		cfs[i%len(cfs)].Add(t)
+	}
 	for _, cf := range cfs {
 		if err := cf.Close("bad"); err != nil {
 			return err
 		}
 	}
-	rc.stats["evaluations"] = len(jobs)
+	rc.stats["evaluations"] = len(jobs) + len(rpcTerms)
 	rc.stats["distinct"] = len(distinct)
 	rc.stats["histogram"] = hist
 	rc.stats["seed"] = rc.seed
